@@ -35,6 +35,8 @@ impl vstd::std_specs::convert::TryFromSpecImpl<Vec<u8>> for SerializedTlvStream 
 //@ fn tlv::SerializedTlvStream::from_bytes
 //@ returns r
 //@ implicit [C18,C06]
+//@ bind buf /let mut (\w+) = s\.as_ref\(\);/
+//@ bind entries /let mut (\w+): Vec<TlvEntry> = vec!\[\];/
 //@ ensures#total_and_equals_parse [C18,C06,C10,C13]
       match parse(as_ref_bytes(s)) {
           None => r is Err,
@@ -42,19 +44,19 @@ impl vstd::std_specs::convert::TryFromSpecImpl<Vec<u8>> for SerializedTlvStream 
       }
 //@ loop 0
 //@ invariant#parse_split [C18]
-      parse(as_ref_bytes(s)) is None <==> parse(b.bview()) is None
+      parse(as_ref_bytes(s)) is None <==> parse($buf.bview()) is None
 //@ invariant#parse_prefix [C18]
-      parse(as_ref_bytes(s)) is Some ==> parse(as_ref_bytes(s))->0 == entries_view(entries@) + parse(b.bview())->0
+      parse(as_ref_bytes(s)) is Some ==> parse(as_ref_bytes(s))->0 == entries_view($entries@) + parse($buf.bview())->0
 //@ decreases
-      b.bview().len()
+      $buf.bview().len()
 //@ ghost loop_begin 0
-      let ghost b0 = b.bview(); let ghost e0 = entries@;
+      let ghost b0 = $buf.bview(); let ghost e0 = $entries@;
 //@ proof loop_end 0
       let e = EntryAbs { typ: typ, value: value@ };
-      assert(entries_view(entries@) =~= entries_view(e0) + seq![e]);
+      assert(entries_view($entries@) =~= entries_view(e0) + seq![e]);
       if parse(b0) is Some {
-          assert(parse(b0)->0 =~= seq![e] + parse(b.bview())->0);
-          assert(entries_view(e0) + parse(b0)->0 =~= entries_view(entries@) + parse(b.bview())->0);
+          assert(parse(b0)->0 =~= seq![e] + parse($buf.bview())->0);
+          assert(entries_view(e0) + parse(b0)->0 =~= entries_view($entries@) + parse($buf.bview())->0);
       }
 //@ end
 
